@@ -293,6 +293,9 @@ func (w *World) oracleLocking(bi *BlockInfo) {
 		if r := m.UnlockReq[u.Id]; r != nil && !r.Dup {
 			if !r.Queued {
 				r.Queued = true
+				if u.Amount.BigInt().Cmp(r.Amount) < 0 {
+					w.probe("unlock-clipped-to-holding")
+				}
 				if u.Amount.BigInt().Cmp(r.Amount) > 0 {
 					w.violate("C11", "unlock-exceeds-request", "over-request", "height %d: unlock %d releases %s, requested %s", b.Height, u.Id, u.Amount, r.Amount)
 				}
